@@ -2,6 +2,7 @@
 from ..poly import Sym, mk_func
 from ..interp import Interp, Hooks, Str, Tup, Opaque, FuncRef, Const, NONE
 from ..model import AnalysisError
+from .. import purity
 from . import motion
 from .motion import V, TWO31
 
@@ -242,6 +243,7 @@ def run(ck, prog, tier):
                        'exact for |accel| < 2^53']
     ck.trusted += ['python ast module', 'vf.poly normal forms (exact Fraction arithmetic)',
                    'vf.interp', 'closed form of the recurrence derived in DESIGN.md C01']
+    purity.check(ck, prog, ['ebb_calc.move_dist_lt', 'ebb_motion.moveDistLM', 'ebb_motion.moveDistLMA'], 'C01-R-pure')
     fn = prog.func('ebb_calc.move_dist_lt')
     if fn.params != ['rate', 'accel', 'time', 'accum']:
         raise AnalysisError('move_dist_lt signature changed: %s' % fn.params)
